@@ -583,10 +583,16 @@ fn conc_case(sink: &mut Sink, idx: u64, counts: &[usize], start: u32, busy: bool
         return;
     }
     let span_site = make_site(&site(CallSiteKind::Span, "conc", &["i"]));
-    let event_site = make_site(&site(CallSiteKind::Event, "conc event", &[]));
+    let event_site = make_site(&site(CallSiteKind::Event, "conc event", &["i"]));
     let events: Arc<Mutex<Vec<TracingEvent>>> = Arc::new(Mutex::new(vec![]));
     let sink_events = Arc::clone(&events);
-    let hook = move |e: TracingEvent| sink_events.lock().unwrap().push(e);
+    // in the busy cases the hook takes its time, so that callbacks of different threads overlap inside it
+    let hook = move |e: TracingEvent| {
+        if busy {
+            std::thread::yield_now();
+        }
+        sink_events.lock().unwrap().push(e);
+    };
     let dispatch = Dispatch::new(TracingEventSender::verif_with_next_span_id(hook, start));
     let barrier = Barrier::new(counts.len());
     let ids: Vec<Vec<u64>> = std::thread::scope(|scope| {
@@ -603,10 +609,10 @@ fn conc_case(sink: &mut Sink, idx: u64, counts: &[usize], start: u32, busy: bool
                         barrier.wait();
                         for i in 0..*n {
                             assert!(span_site.is_enabled(), "the sender enables everything");
-                            let span = with_value_set(span_site, &[(0, Some(Prim::UInt(IWidth::WSize, i as u128)))], |vs| Span::new(span_site.metadata(), vs));
+                            let span = with_value_set(span_site, &[(0, Some(Prim::UInt(IWidth::WSize, (t * 1_000_000 + i) as u128)))], |vs| Span::new(span_site.metadata(), vs));
                             got.push(span.id().expect("enabled span").into_u64());
                             if busy && (t + i) % 3 == 0 && event_site.is_enabled() {
-                                with_value_set(event_site, &[], |vs| Event::child_of(span.id(), event_site.metadata(), vs));
+                                with_value_set(event_site, &[(0, Some(Prim::UInt(IWidth::WSize, (t * 1_000_000 + i) as u128)))], |vs| Event::child_of(span.id(), event_site.metadata(), vs));
                             }
                             if (t + i) % 2 == 0 {
                                 kept.push(span);
@@ -630,17 +636,44 @@ fn conc_case(sink: &mut Sink, idx: u64, counts: &[usize], start: u32, busy: bool
             _ => None,
         })
         .collect();
+    // what each thread contributed to the stream, in stream order: (0, i) NewSpan, (1, i) NewEvent,
+    // (2, i) SpanDropped of its i-th span; (9, _) for anything that cannot be attributed
+    let marker = |values: &tracing_tunnel::TracedValues<String>| -> Option<(usize, u64)> {
+        match values.get("i") {
+            Some(tracing_tunnel::TracedValue::UInt(v)) => Some(((*v / 1_000_000) as usize, (*v % 1_000_000) as u64)),
+            _ => None,
+        }
+    };
+    let mut per_thread: Vec<Vec<(u8, u64)>> = vec![vec![]; counts.len()];
+    let mut stray = 0u64;
+    for e in events.lock().unwrap().iter() {
+        let attributed = match e {
+            TracingEvent::NewSpan { values, .. } => marker(values).map(|(t, i)| (t, (0u8, i))),
+            TracingEvent::NewEvent { values, .. } => marker(values).map(|(t, i)| (t, (1u8, i))),
+            TracingEvent::SpanDropped { id } => ids
+                .iter()
+                .enumerate()
+                .find_map(|(t, l)| l.iter().position(|x| x == id).map(|i| (t, (2u8, i as u64)))),
+            TracingEvent::NewCallSite { .. } => continue,
+            _ => None,
+        };
+        match attributed {
+            Some((t, item)) if t < per_thread.len() => per_thread[t].push(item),
+            _ => stray += 1,
+        }
+    }
     // the order of the atomic steps, reconstructed from the ids (no wrap in these cases)
     let mut pairs: Vec<(u64, usize)> = ids.iter().enumerate().flat_map(|(t, l)| l.iter().map(move |id| (*id, t))).collect();
     pairs.sort_unstable();
     let sched: Vec<usize> = pairs.iter().map(|(_, t)| *t).collect();
     let switches = sched.windows(2).filter(|w| w[0] != w[1]).count();
     let cnats = |l: &[usize]| format!("{}%nat", clist(l.iter(), |n| n.to_string()));
-    let input = format!("{start} {} {}", cnats(counts), cnats(&sched));
+    let input = format!("{start} {} {} {}", cnats(counts), cnats(&sched), cbool(busy));
     let judge = format!(
-        "judge_conc {input} (mk_cobs {} {})",
+        "judge_conc {input} (mk_cobs {} {} {} {stray})",
         clist(ids.iter(), |l| clist(l.iter(), |id| id.to_string())),
-        clist(event_ids.iter(), |id| id.to_string())
+        clist(event_ids.iter(), |id| id.to_string()),
+        clist(per_thread.iter(), |l| clist(l.iter(), |(k, i)| format!("({k}, {i})")))
     );
     sink.bump(&format!("conc:threads:{:02}", counts.len()));
     sink.bump_by("conc:allocations", sched.len() as u64);
